@@ -319,7 +319,7 @@ class Particle:
                 "E": [5, 0],
                 "px": [6, 0],
                 "py": [7, 0],
-                "pz_": [8, 0],
+                "pz": [8, 0],
                 "pdg": [9, 0],
                 "ID": [11, 0],
                 "charge": [12, 0],
